@@ -273,7 +273,29 @@ func runProperty(cfg RunConfig, evidencePath, knownPath, baselinePath string, up
 	invs := make([]inv, len(failed))
 	// candidate generation builds terms (not thread-safe): sequential; replays run in parallel
 	candLists := make([][]Candidate, len(failed))
+	// scenario witnesses first (cached per scenario file, run in parallel): an obligation whose
+	// scenario already fails on the real code needs no solver-driven input search
+	witnessHit := make([]bool, len(failed))
+	{
+		var wg0 sync.WaitGroup
+		sem0 := make(chan struct{}, 6)
+		for i, r := range failed {
+			wg0.Add(1)
+			sem0 <- struct{}{}
+			go func(i int, r *OblResult) {
+				defer wg0.Done()
+				defer func() { <-sem0 }()
+				if found, violated, _ := e.runWitness(cfg, r.Name); found && violated {
+					witnessHit[i] = true
+				}
+			}(i, r)
+		}
+		wg0.Wait()
+	}
 	for i, r := range failed {
+		if witnessHit[i] {
+			continue
+		}
 		info := e.entries[funcOfObl(r.Name)]
 		if info == nil || r.FailObl == nil || strings.Contains(r.Name, "~case") || !(r.Kind == "post" || strings.HasPrefix(r.Kind, "safe.")) {
 			continue
@@ -314,6 +336,13 @@ func runProperty(cfg RunConfig, evidencePath, knownPath, baselinePath string, up
 		case haveBase && inBase[name]:
 			fmt.Printf("VIOLATION property=%s replay=%s no-failing-input-found\n", cfg.Prop, iv.file)
 			fmt.Printf("  obligation %s (discharged on the baseline tree) now fails: %s [%s], solver says %s\n", name, iv.r.Desc, iv.r.Pos, iv.r.Fail.Status)
+			violations++
+		case iv.r.FailObl != nil && iv.r.FailObl.Goal != nil && iv.r.FailObl.Goal.IsFalse() && (iv.r.Kind == "pre" || strings.Contains(name, "/pre@") || strings.Contains(name, "/before@")):
+			// a call-site requirement that the executor itself decides to be false (labels, literal
+			// formats, …) on a satisfiable path: not a prover weakness, so it is reported even though
+			// the call site is new and has no baseline entry
+			fmt.Printf("VIOLATION property=%s replay=%s no-failing-input-found\n", cfg.Prop, iv.file)
+			fmt.Printf("  obligation %s (new call site; the requirement is definitely false on a reachable path): %s [%s]\n", name, iv.r.Desc, iv.r.Pos)
 			violations++
 		case !haveBase:
 			// no baseline yet: every failure is reported
